@@ -68,6 +68,11 @@ def _to_func_input(x, backend, require_grad=False):
     """
     if require_grad and backend.supports_autograd():
         return backend.create_grad_tensor(x)
+    if backend.supports_autograd() and isinstance(x, np.ndarray):
+        # keep the perturbed point in the dtype chosen above: as a numpy array its
+        # elements reach backend functions as Python floats and are rounded to float32,
+        # which is coarser than the finite-difference step
+        return backend.np.asarray(x)
     return x
 
 
